@@ -1,5 +1,835 @@
-import RdestModel.Swarm.Manager
+/-
+  C12 — no missing piece is ever withheld by a stale reservation.
+-/
+import RdestModel.Lemmas.Manager
+set_option linter.unusedSimpArgs false
+set_option linter.unusedVariables false
 namespace Rdest.Props.C12
 open Rdest.Swarm
-theorem placeholder : incr .missing = .reserved 1 := rfl
+
+/-- Invariant of the manager (together with the connection tasks' `rx`):
+    * addresses are unique keys;
+    * a task that downloads piece `y` is recorded with `piece_index = y`;
+    * a recorded assignment of a peer that does not choke us was really requested (`rx`);
+    * a piece is `Reserved(n)` only with `1 ≤ n ≤` number of unchoked peers it is assigned to. -/
+structure Inv (s : MState) : Prop where
+  nodup : (s.peers.map (·.addr)).Nodup
+  rxIdx : ∀ p ∈ s.peers, ∀ y, p.rx = some y → p.pieceIndex = some y
+  idxRx : ∀ p ∈ s.peers, ∀ i, p.pieceIndex = some i → p.choked = false → p.rx = some i
+  resv : ∀ i n, s.statuses[i]? = some (.reserved n) → 1 ≤ n ∧ n ≤ countOn s.peers i
+
+def b2n (b : Bool) : Nat := if b then 1 else 0
+
+/-- Replacing one peer record and the status vector preserves the invariant if the new record is consistent and
+    every reservation is covered after accounting for the replaced record. -/
+theorem inv_update (s : MState) (hinv : Inv s) (a : Nat) (p q : MPeer) (hp : findPeer s a = some p)
+    (hq : q.addr = p.addr) (st' : List Status)
+    (hq2 : ∀ y, q.rx = some y → q.pieceIndex = some y)
+    (hq3 : ∀ i, q.pieceIndex = some i → q.choked = false → q.rx = some i)
+    (hst : ∀ j n', st'[j]? = some (.reserved n') →
+      1 ≤ n' ∧ n' + b2n (counted j p) ≤ countOn s.peers j + b2n (counted j q)) :
+    Inv { statuses := st', peers := setPeer s q } := by
+  obtain ⟨hpm, hpa⟩ := findPeer_some hp
+  refine ⟨?_, ?_, ?_, ?_⟩
+  · show ((setPeer s q).map (·.addr)).Nodup
+    rw [setPeer_addrs s p q hq]; exact hinv.nodup
+  · intro x hx y hy
+    rcases mem_setPeer s q x hx with rfl | ⟨hx', _⟩
+    · exact hq2 y hy
+    · exact hinv.rxIdx x hx' y hy
+  · intro x hx i hi hc
+    rcases mem_setPeer s q x hx with rfl | ⟨hx', _⟩
+    · exact hq3 i hi hc
+    · exact hinv.idxRx x hx' i hi hc
+  · intro j n' hj
+    obtain ⟨h1, h2⟩ := hst j n' hj
+    refine ⟨h1, ?_⟩
+    have := countP_setPeer s.peers hinv.nodup p q hpm hq (counted j)
+    simp only [countOn, setPeer, b2n] at h2 ⊢
+    omega
+
+theorem counted_iff (j : Nat) (p : MPeer) : counted j p = true ↔ p.pieceIndex = some j ∧ p.choked = false := by
+  simp [counted]
+
+/-- A peer is counted on at most the one piece it is assigned. -/
+theorem counted_eq (j i : Nat) (p : MPeer) (h : p.pieceIndex = some i) : counted j p = (decide (j = i) && !p.choked) := by
+  unfold counted; rw [h]
+  by_cases hji : j = i
+  · subst hji; simp
+  · have : ¬ i = j := fun e => hji e.symm
+    simp [hji, this]
+
+theorem counted_none (j : Nat) (p : MPeer) (h : p.pieceIndex = none) : counted j p = false := by
+  simp [counted, h]
+
+theorem counted_choked (j : Nat) (p : MPeer) (h : p.choked = true) : counted j p = false := by
+  simp [counted, h]
+
+/-- Status values after `incr`/`decr`, as far as reservations are concerned. -/
+theorem incr_reserved (x : Status) (n' : Nat) (h : incr x = .reserved n') :
+    (x = .missing ∧ n' = 1) ∨ (∃ n, x = .reserved n ∧ n' = n + 1) := by
+  cases x <;> simp [incr] at h
+  · left; exact ⟨rfl, h.symm⟩
+  · right; exact ⟨_, rfl, h.symm⟩
+
+theorem decr_reserved (x : Status) (n' : Nat) (h : decr x = .reserved n') :
+    ∃ n, x = .reserved n ∧ n ≥ 2 ∧ n' = n - 1 := by
+  match x, h with
+  | .missing, h => simp [decr] at h
+  | .have, h => simp [decr] at h
+  | .reserved n, h =>
+    simp only [decr] at h
+    split at h
+    · simp only [Status.reserved.injEq] at h; exact ⟨n, rfl, by omega, h.symm⟩
+    · simp at h
+
+
+theorem map_some_eq {x : Option Status} {f : Status → Status} {y : Status} (h : x.map f = some y) :
+    ∃ v, x = some v ∧ f v = y := by
+  cases x with
+  | none => simp at h
+  | some v => exact ⟨v, rfl, by simpa using h⟩
+
+/-! ### Preservation, event by event -/
+
+theorem choke_inv (s : MState) (hinv : Inv s) (a : Nat) (p : MPeer) (hp : findPeer s a = some p) :
+    Inv { statuses := (match p.pieceIndex with | some i => modifyAt s.statuses i decr | none => s.statuses),
+          peers := setPeer s { p with choked := true } } := by
+  obtain ⟨hpm, _⟩ := findPeer_some hp
+  apply inv_update s hinv a p { p with choked := true } hp rfl
+  · exact fun y hy => hinv.rxIdx p hpm y hy
+  · intro i _ hc; simp at hc
+  · intro j n' hj
+    have hq : counted j { p with choked := true } = false := counted_choked _ _ rfl
+    rw [hq]
+    cases hpi : p.pieceIndex with
+    | none =>
+      rw [hpi] at hj
+      have := hinv.resv j n' hj
+      rw [counted_none j p hpi]; simp [b2n]; exact this
+    | some i =>
+      rw [hpi] at hj
+      simp only [modifyAt_getElem?] at hj
+      by_cases hji : j = i
+      · subst hji
+        simp only [if_true] at hj
+        obtain ⟨x, hx, hd⟩ := map_some_eq hj
+        obtain ⟨n, rfl, hn2, rfl⟩ := decr_reserved x n' hd
+        have := hinv.resv j n hx
+        rw [counted_eq j j p hpi]
+        cases p.choked <;> simp [b2n] <;> omega
+      · simp only [hji, if_false] at hj
+        have := hinv.resv j n' hj
+        rw [counted_eq j i p hpi]; simp [hji, b2n]; exact this
+
+/-- Statuses after "release `o` (optional), then reserve `c` (optional)". -/
+def relThenRes (st : List Status) (o c : Option Nat) : List Status :=
+  let st0 := match o with | some i => modifyAt st i decr | none => st
+  match c with | some i => modifyAt st0 i incr | none => st0
+
+/-- The common accounting argument: the peer record `p` (counted at most on `o`) is replaced by `q`
+    (counted exactly on `c`); the reservation of `o` is released, the one of `c` is added. -/
+theorem relThenRes_resv (s : MState) (hinv : Inv s) (p q : MPeer) (hpm : p ∈ s.peers) (o c : Option Nat)
+    (hpo : ∀ j, counted j p = true → o = some j)
+    (hqc : ∀ j, counted j q = decide (c = some j)) :
+    ∀ j n', (relThenRes s.statuses o c)[j]? = some (.reserved n') →
+      1 ≤ n' ∧ n' + b2n (counted j p) ≤ countOn s.peers j + b2n (counted j q) := by
+  intro j n' hj
+  rw [hqc j]
+  have hk : counted j p = false ∨ (counted j p = true ∧ o = some j ∧ 1 ≤ countOn s.peers j) := by
+    cases hc : counted j p
+    · left; rfl
+    · right; exact ⟨rfl, hpo j hc, by unfold countOn; exact List.countP_pos_iff.mpr ⟨p, hpm, hc⟩⟩
+  generalize counted j p = cp at hk ⊢
+  unfold relThenRes at hj
+  have hres := hinv.resv j
+  cases o with
+  | none =>
+    have hcp : cp = false := by rcases hk with h | ⟨_, h, _⟩; exact h; simp at h
+    subst hcp
+    cases c with
+    | none => simp only at hj; have := hres n' hj; simp [b2n]; exact this
+    | some ci =>
+      simp only [modifyAt_getElem?] at hj
+      by_cases hjc : j = ci
+      · subst hjc
+        simp only [if_true] at hj
+        obtain ⟨x, hx, hi⟩ := map_some_eq hj
+        rcases incr_reserved x n' hi with ⟨rfl, rfl⟩ | ⟨n, rfl, rfl⟩
+        · simp [b2n]
+        · have := hres n hx; simp [b2n]; omega
+      · simp only [hjc, if_false] at hj
+        have := hres n' hj
+        have hne : ¬ ci = j := fun e => hjc e.symm
+        simp [b2n, hne]; omega
+  | some oi =>
+    have hk' : b2n cp = 0 ∨ (b2n cp = 1 ∧ oi = j ∧ 1 ≤ countOn s.peers j) := by
+      rcases hk with h | ⟨h, h2, h3⟩
+      · left; simp [b2n, h]
+      · right; exact ⟨by simp [b2n, h], by simpa using h2, h3⟩
+    generalize b2n cp = k at hk'
+    cases c with
+    | none =>
+      simp only [modifyAt_getElem?] at hj
+      by_cases hjo : j = oi
+      · subst hjo
+        simp only [if_true] at hj
+        obtain ⟨x, hx, hd⟩ := map_some_eq hj
+        obtain ⟨n, rfl, hn2, rfl⟩ := decr_reserved x n' hd
+        have := hres n hx; simp [b2n]; omega
+      · simp only [hjo, if_false] at hj
+        have := hres n' hj
+        have hne : ¬ oi = j := fun e => hjo e.symm
+        simp [b2n]; omega
+    | some ci =>
+      simp only [modifyAt_getElem?] at hj
+      by_cases hjc : j = ci <;> by_cases hjo : j = oi
+      · -- released and reserved again
+        subst hjc; subst hjo
+        simp only [if_true] at hj
+        obtain ⟨x, hx, hi⟩ := map_some_eq hj
+        obtain ⟨y, hy, hd⟩ := map_some_eq hx
+        rcases incr_reserved x n' hi with ⟨rfl, rfl⟩ | ⟨n, rfl, rfl⟩
+        · simp [b2n]; omega
+        · obtain ⟨m, rfl, hm2, hm⟩ := decr_reserved y n hd
+          have := hres m hy; simp [b2n]; omega
+      · subst hjc
+        have hne : ¬ oi = j := fun e => hjo e.symm
+        simp only [if_true, hjo, if_false] at hj
+        obtain ⟨x, hx, hi⟩ := map_some_eq hj
+        rcases incr_reserved x n' hi with ⟨rfl, rfl⟩ | ⟨n, rfl, rfl⟩
+        · simp [b2n]; omega
+        · have := hres n hx; simp [b2n]; omega
+      · subst hjo
+        have hne : ¬ ci = j := fun e => hjc e.symm
+        simp only [hjc, if_false, if_true] at hj
+        obtain ⟨x, hx, hd⟩ := map_some_eq hj
+        obtain ⟨n, rfl, hn2, rfl⟩ := decr_reserved x n' hd
+        have := hres n hx; simp [b2n, hne]; omega
+      · have h1 : ¬ ci = j := fun e => hjc e.symm
+        have h2 : ¬ oi = j := fun e => hjo e.symm
+        simp only [hjc, hjo, if_false] at hj
+        have := hres n' hj
+        simp [b2n, h1]; omega
+
+
+/-- Generic instance: the record of `p` is replaced by `q`, statuses become "release `o`, reserve `c`". -/
+theorem inv_relThenRes (s : MState) (hinv : Inv s) (a : Nat) (p q : MPeer) (hp : findPeer s a = some p)
+    (hq : q.addr = p.addr) (o c : Option Nat)
+    (hpo : ∀ j, counted j p = true → o = some j)
+    (hqc : ∀ j, counted j q = decide (c = some j))
+    (hq2 : ∀ y, q.rx = some y → q.pieceIndex = some y)
+    (hq3 : ∀ i, q.pieceIndex = some i → q.choked = false → q.rx = some i) :
+    Inv { statuses := relThenRes s.statuses o c, peers := setPeer s q } :=
+  inv_update s hinv a p q hp hq _ hq2 hq3
+    (relThenRes_resv s hinv p q (findPeer_some hp).1 o c hpo hqc)
+
+theorem counted_imp_idx (p : MPeer) (j : Nat) (h : counted j p = true) : p.pieceIndex = some j :=
+  ((counted_iff j p).mp h).1
+
+/-- Flag-only updates (interest, advertised pieces) never disturb the invariant. -/
+theorem inv_flags (s : MState) (hinv : Inv s) (a : Nat) (p q : MPeer) (hp : findPeer s a = some p)
+    (hq : q.addr = p.addr) (h1 : q.pieceIndex = p.pieceIndex) (h2 : q.choked = p.choked) (h3 : q.rx = p.rx) :
+    Inv { s with peers := setPeer s q } := by
+  obtain ⟨hpm, _⟩ := findPeer_some hp
+  apply inv_update s hinv a p q hp hq s.statuses
+  · intro y hy; rw [h1]; rw [h3] at hy; exact hinv.rxIdx p hpm y hy
+  · intro i hi hc; rw [h3]; rw [h1] at hi; rw [h2] at hc; exact hinv.idxRx p hpm i hi hc
+  · intro j n' hj
+    have : counted j q = counted j p := by simp [counted, h1, h2]
+    rw [this]; have := hinv.resv j n' hj; omega
+
+theorem modifyAt_const_eq_incr (st : List Status) (i : Nat) (h : st.getD i .have = .missing) :
+    modifyAt st i (fun _ => .reserved 1) = modifyAt st i incr := by
+  unfold modifyAt
+  cases hx : st[i]? with
+  | none => rfl
+  | some x =>
+    have : x = .missing := by simpa [List.getD_eq_getElem?_getD, hx] using h
+    subst this; rfl
+
+theorem setPeer_setPeer (s : MState) (st : List Status) (p1 q : MPeer) (h : p1.addr = q.addr) :
+    setPeer { statuses := st, peers := setPeer s p1 } q = setPeer s q := by
+  unfold setPeer
+  simp only [List.map_map]
+  apply List.map_congr_left
+  intro x _
+  simp only [Function.comp]
+  by_cases hx : x.addr = p1.addr
+  · simp [hx, h]
+  · have : ¬ x.addr = q.addr := by rw [← h]; exact hx
+    simp [hx, this]
+
+theorem find_map_replace (ps : List MPeer) (a : Nat) (p q : MPeer)
+    (hp : ps.find? (fun x => decide (x.addr = a)) = some p) (hq : q.addr = p.addr) :
+    (ps.map (fun x => if x.addr = q.addr then q else x)).find? (fun x => decide (x.addr = a)) = some q := by
+  have hpa : p.addr = a := by simpa using List.find?_some hp
+  induction ps with
+  | nil => simp at hp
+  | cons x xs ih =>
+    simp only [List.find?_cons] at hp
+    simp only [List.map_cons, List.find?_cons]
+    by_cases hx : x.addr = a
+    · simp [hx] at hp
+      subst hp
+      simp [hq, hx]
+    · simp [hx] at hp
+      have hxq : ¬ x.addr = q.addr := by rw [hq, hpa]; exact hx
+      simp only [hxq, if_false, hx, decide_false]
+      exact ih hp
+
+theorem findPeer_setPeer (s : MState) (st : List Status) (a : Nat) (p q : MPeer) (hp : findPeer s a = some p)
+    (hq : q.addr = p.addr) : findPeer { statuses := st, peers := setPeer s q } a = some q := by
+  unfold findPeer at hp ⊢
+  exact find_map_replace s.peers a p q hp hq
+
+/-- `Peer::handle_piece` from a state in which the record has no assignment. -/
+theorem handlePiece_inv (s : MState) (hinv : Inv s) (a : Nat) (p : MPeer) (hp : findPeer s a = some p)
+    (hpi : p.pieceIndex = none) (hrx : p.rx = none) (chosen : Option Nat) :
+    Inv { statuses := (handlePiece s.statuses p chosen).1, peers := setPeer s (handlePiece s.statuses p chosen).2.1 } := by
+  have hcp : ∀ j, counted j p = true → (none : Option Nat) = some j := by
+    intro j h; rw [counted_imp_idx p j h] at hpi; simp at hpi
+  unfold handlePiece
+  cases chosen with
+  | none =>
+    have := inv_relThenRes s hinv a p { p with pieceIndex := none, amInterested := false, rx := none } hp rfl none none hcp
+      (by intro j; simp [counted]) (by simp) (by simp)
+    simpa [relThenRes] using this
+  | some c =>
+    by_cases hc : p.choked = true
+    · simp only [hc, if_true]
+      have := inv_relThenRes s hinv a p { p with pieceIndex := none, rx := none } hp rfl none none hcp
+        (by intro j; simp [counted]) (by simp) (by simp)
+      simpa [relThenRes, hc] using this
+    · simp only [hc, if_false, Bool.false_eq_true]
+      have hc' : p.choked = false := by simpa using hc
+      have := inv_relThenRes s hinv a p { p with pieceIndex := some c, rx := some c } hp rfl none (some c) hcp
+        (by intro j; simp [counted, hc']) (by simp) (by simp)
+      simpa [relThenRes, hc'] using this
+
+theorem countOn_filter_remove (ps : List MPeer) (hnd : (ps.map (·.addr)).Nodup) (p : MPeer) (hpm : p ∈ ps)
+    (a : Nat) (hpa : p.addr = a) (j : Nat) :
+    countOn (ps.filter (fun q => decide (q.addr ≠ a))) j + b2n (counted j p) = countOn ps j := by
+  unfold countOn
+  induction ps with
+  | nil => simp at hpm
+  | cons x xs ih =>
+    simp only [List.map_cons, List.nodup_cons] at hnd
+    simp only [List.mem_cons] at hpm
+    by_cases hx : x.addr = a
+    · have hxp : x = p := by
+        rcases hpm with rfl | hpm
+        · rfl
+        · exfalso; apply hnd.1; rw [hx, ← hpa]; exact List.mem_map_of_mem hpm
+      subst hxp
+      have hfil : xs.filter (fun q => decide (q.addr ≠ a)) = xs := by
+        apply List.filter_eq_self.mpr
+        intro q hq
+        have : q.addr ≠ a := by
+          intro e; apply hnd.1; rw [hx, ← e]; exact List.mem_map_of_mem hq
+        exact decide_eq_true this
+      have hd : decide (x.addr ≠ a) = false := decide_eq_false (fun h => h hx)
+      rw [List.filter_cons, hd]
+      simp only [Bool.false_eq_true, if_false, hfil, List.countP_cons, b2n]
+    · have hpx : p ∈ xs := by
+        rcases hpm with rfl | hpm
+        · exact absurd hpa hx
+        · exact hpm
+      have := ih hnd.2 hpx
+      have hd : decide (x.addr ≠ a) = true := decide_eq_true hx
+      rw [List.filter_cons, hd]
+      simp only [if_true, List.countP_cons]
+      omega
+
+/-- **Every enabled event is handled without panic and preserves the invariant** — for every value of the
+    random piece choice. -/
+theorem step_inv (s : MState) (hinv : Inv s) (ev : Ev) (hen : Enabled s ev) :
+    ∃ s' r, mstep s ev = .ok s' r ∧ Inv s' := by
+  cases ev with
+  | add a n =>
+    obtain ⟨hnone, _⟩ := hen
+    have hne := findPeer_none hnone
+    have hfil : s.peers.filter (fun p => decide (p.addr ≠ a)) = s.peers := by
+      apply List.filter_eq_self.mpr; intro p hp; simpa using hne p hp
+    refine ⟨_, _, rfl, ?_⟩
+    simp only [hfil]
+    refine ⟨?_, ?_, ?_, ?_⟩
+    · simp only [List.map_cons, List.nodup_cons]
+      refine ⟨?_, hinv.nodup⟩
+      intro h; obtain ⟨p, hp, hpa⟩ := List.mem_map.mp h; exact hne p hp hpa
+    · intro x hx y hy
+      simp only [List.mem_cons] at hx
+      rcases hx with rfl | hx
+      · simp at hy
+      · exact hinv.rxIdx x hx y hy
+    · intro x hx i hi hc
+      simp only [List.mem_cons] at hx
+      rcases hx with rfl | hx
+      · simp at hi
+      · exact hinv.idxRx x hx i hi hc
+    · intro j n' hj
+      have := hinv.resv j n' hj
+      simp only [countOn, List.countP_cons]
+      unfold countOn at this; omega
+  | choke a =>
+    obtain ⟨p, hp⟩ := hen
+    obtain ⟨hpm, _⟩ := findPeer_some hp
+    refine ⟨_, _, by simp only [mstep, hp]; rfl, ?_⟩
+    have := inv_relThenRes s hinv a p { p with choked := true } hp rfl p.pieceIndex none
+      (fun j h => counted_imp_idx p j h) (by intro j; simp [counted])
+      (fun y hy => hinv.rxIdx p hpm y hy) (by intro i _ hc; simp at hc)
+    cases hpi : p.pieceIndex <;> simpa [relThenRes, hpi] using this
+  | unchoke a chosen =>
+    obtain ⟨p, hp⟩ := hen
+    obtain ⟨hpm, _⟩ := findPeer_some hp
+    -- the reservation released first: the old piece, if the peer was not choking us
+    let o : Option Nat := match p.choked, p.pieceIndex with
+      | false, some old => some old
+      | _, _ => none
+    have hpo : ∀ j, counted j p = true → o = some j := by
+      intro j h
+      obtain ⟨h1, h2⟩ := (counted_iff j p).mp h
+      simp only [o, h1, h2]
+    have hst0 : (match p.choked, p.pieceIndex with
+        | false, some old => modifyAt s.statuses old decr
+        | _, _ => s.statuses) = relThenRes s.statuses o none := by
+      simp only [o, relThenRes]
+      cases p.choked <;> cases p.pieceIndex <;> rfl
+    cases chosen with
+    | none =>
+      refine ⟨_, _, by simp only [mstep, hp]; rfl, ?_⟩
+      have := inv_relThenRes s hinv a p { p with choked := false, pieceIndex := none, amInterested := false, rx := none }
+        hp rfl o none hpo (by intro j; simp [counted]) (by simp) (by simp)
+      rw [← hst0] at this; exact this
+    | some c =>
+      refine ⟨_, _, by simp only [mstep, hp]; rfl, ?_⟩
+      have := inv_relThenRes s hinv a p { p with choked := false, pieceIndex := some c, amInterested := true, rx := some c }
+        hp rfl o (some c) hpo (by intro j; simp [counted]) (by simp) (by simp)
+      have e : relThenRes s.statuses o (some c) = modifyAt (relThenRes s.statuses o none) c incr := by
+        simp only [relThenRes]
+      rw [e, ← hst0] at this; exact this
+  | interested a =>
+    obtain ⟨p, hp⟩ := hen
+    exact ⟨_, _, by simp only [mstep, hp] <;> rfl, inv_flags s hinv a p { p with interested := true } hp rfl rfl rfl rfl⟩
+  | notInterested a chosen =>
+    obtain ⟨p, hp⟩ := hen
+    exact ⟨_, _, by simp only [mstep, hp] <;> rfl, inv_flags s hinv a p { p with interested := false } hp rfl rfl rfl rfl⟩
+  | bitfield a bits chosen =>
+    obtain ⟨⟨p, hp⟩, hlen, hpl⟩ := hen
+    rw [hp] at hpl; simp only [Option.some.injEq, forall_eq'] at hpl
+    have hl : ¬ bits.length ≠ p.pieces.length := by rw [hlen, hpl]; simp
+    exact ⟨_, _, by simp only [mstep, hp, hl, if_false] <;> rfl,
+      inv_flags s hinv a p { p with pieces := bits, amInterested := chosen.isSome } hp rfl rfl rfl rfl⟩
+  | «have» a i =>
+    obtain ⟨⟨p, hp⟩, hi, hpl⟩ := hen
+    rw [hp] at hpl; simp only [Option.some.injEq, forall_eq'] at hpl
+    obtain ⟨hpm, _⟩ := findPeer_some hp
+    have hl : ¬ i ≥ p.pieces.length := by rw [hpl]; omega
+    by_cases hcond : s.statuses.getD i .have = .missing ∧ p.amInterested = false
+    · by_cases hassign : p.choked = false ∧ p.pieceIndex = none
+      · refine ⟨_, _, by simp only [mstep, hp, hl, if_false, hcond, hassign, and_self, if_true] <;> rfl, ?_⟩
+        have hcp : ∀ j, counted j p = true → (none : Option Nat) = some j := by
+          intro j h; rw [counted_imp_idx p j h] at hassign; simp at hassign
+        have := inv_relThenRes s hinv a p
+          { p with pieces := p.pieces.set i true, pieceIndex := some i, amInterested := true, rx := some i }
+          hp rfl none (some i) hcp (by intro j; simp [counted, hassign.1]) (by simp) (by simp)
+        rw [modifyAt_const_eq_incr s.statuses i hcond.1]
+        simpa [relThenRes, hassign.1] using this
+      · exact ⟨_, _, by simp only [mstep, hp, hl, if_false, hcond, hassign, and_self, if_true] <;> rfl,
+          inv_flags s hinv a p { p with pieces := p.pieces.set i true, amInterested := true } hp rfl rfl rfl rfl⟩
+    · exact ⟨_, _, by simp only [mstep, hp, hl, if_false, hcond] <;> rfl,
+        inv_flags s hinv a p { p with pieces := p.pieces.set i true } hp rfl rfl rfl rfl⟩
+  | pieceDone a chosen =>
+    obtain ⟨p, y, hp, hrx⟩ := hen
+    obtain ⟨hpm, _⟩ := findPeer_some hp
+    have hpi := hinv.rxIdx p hpm y hrx
+    refine ⟨_, _, by simp only [mstep, hp, hpi] <;> rfl, ?_⟩
+    -- first the piece is marked owned and the assignment dropped ...
+    let p1 : MPeer := { p with pieceIndex := none, rx := none }
+    let st1 := modifyAt s.statuses y (fun _ => Status.have)
+    have hinv1 : Inv { statuses := st1, peers := setPeer s p1 } := by
+      apply inv_update s hinv a p p1 hp rfl st1 (by simp [p1]) (by simp [p1])
+      intro j n' hj
+      simp only [st1, modifyAt_getElem?] at hj
+      have hq : counted j p1 = false := counted_none j p1 rfl
+      rw [hq]
+      by_cases hjy : j = y
+      · subst hjy
+        simp only [if_true] at hj
+        obtain ⟨x, _, hx⟩ := map_some_eq hj
+        simp at hx
+      · simp only [hjy, if_false] at hj
+        have := hinv.resv j n' hj
+        rw [counted_eq j y p hpi]; simp [hjy, b2n]; exact this
+    -- ... then `handle_piece` runs from that state
+    have hp1 : findPeer { statuses := st1, peers := setPeer s p1 } a = some p1 := findPeer_setPeer s st1 a p p1 hp rfl
+    have h2 := handlePiece_inv _ hinv1 a p1 hp1 rfl rfl chosen
+    have hsp : ∀ q : MPeer, q.addr = p.addr →
+        setPeer { statuses := st1, peers := setPeer s p1 } q = setPeer s q := by
+      intro q hq; exact setPeer_setPeer s st1 p1 q (by simp [p1, hq])
+    have haddr : (handlePiece st1 p1 chosen).2.1.addr = p.addr := by
+      unfold handlePiece
+      cases chosen with
+      | none => rfl
+      | some c => dsimp only; split <;> rfl
+    rw [hsp _ haddr] at h2
+    -- the record handed to handle_piece in the model is `{ p with rx := none }`; its result equals that of `p1`
+    have hsame : handlePiece st1 { p with rx := none } chosen = handlePiece st1 p1 chosen := by
+      unfold handlePiece; cases chosen <;> simp [p1]
+    rw [← hsame] at h2; exact h2
+  | pieceCancel a chosen =>
+    obtain ⟨p, y, hp, hrx, _⟩ := hen
+    obtain ⟨hpm, _⟩ := findPeer_some hp
+    have hpi := hinv.rxIdx p hpm y hrx
+    refine ⟨_, _, by simp only [mstep, hp, hpi] <;> rfl, ?_⟩
+    let p1 : MPeer := { p with pieceIndex := none, rx := none }
+    let st1 := modifyAt s.statuses y decr
+    have hinv1 : Inv { statuses := st1, peers := setPeer s p1 } := by
+      have := inv_relThenRes s hinv a p p1 hp rfl (some y) none
+        (by intro j h; rw [← counted_imp_idx p j h]; exact hpi.symm ▸ rfl) (by intro j; simp [counted, p1]) (by simp [p1]) (by simp [p1])
+      simpa [relThenRes, st1] using this
+    have hp1 : findPeer { statuses := st1, peers := setPeer s p1 } a = some p1 := findPeer_setPeer s st1 a p p1 hp rfl
+    have h2 := handlePiece_inv _ hinv1 a p1 hp1 rfl rfl chosen
+    have hsp : ∀ q : MPeer, q.addr = p.addr →
+        setPeer { statuses := st1, peers := setPeer s p1 } q = setPeer s q := by
+      intro q hq; exact setPeer_setPeer s st1 p1 q (by simp [p1, hq])
+    have haddr : (handlePiece st1 p1 chosen).2.1.addr = p.addr := by
+      unfold handlePiece
+      cases chosen with
+      | none => rfl
+      | some c => dsimp only; split <;> rfl
+    rw [hsp _ haddr] at h2
+    have hsame : handlePiece st1 { p with rx := none } chosen = handlePiece st1 p1 chosen := by
+      unfold handlePiece; cases chosen <;> simp [p1]
+    rw [← hsame] at h2; exact h2
+  | kill a =>
+    cases hp : findPeer s a with
+    | none => exact ⟨_, _, by simp only [mstep, hp] <;> rfl, hinv⟩
+    | some p =>
+      obtain ⟨hpm, hpa⟩ := findPeer_some hp
+      refine ⟨_, _, by simp only [mstep, hp] <;> rfl, ?_⟩
+      have hcnt : ∀ j, countOn (s.peers.filter (fun q => decide (q.addr ≠ a))) j + b2n (counted j p) = countOn s.peers j :=
+        fun j => countOn_filter_remove s.peers hinv.nodup p hpm a hpa j
+      refine ⟨?_, ?_, ?_, ?_⟩
+      · exact List.Nodup.sublist (List.Sublist.map _ List.filter_sublist) hinv.nodup
+      · intro x hx yy hy; exact hinv.rxIdx x (List.mem_filter.mp hx).1 yy hy
+      · intro x hx i hi hc; exact hinv.idxRx x (List.mem_filter.mp hx).1 i hi hc
+      · intro j n' hj
+        have hc := hcnt j
+        show 1 ≤ n' ∧ n' ≤ countOn (s.peers.filter (fun q => decide (q.addr ≠ a))) j
+        replace hj : (match p.pieceIndex with
+            | some i => if s.statuses.getD i Status.have ≠ Status.have then modifyAt s.statuses i (fun _ => Status.missing) else s.statuses
+            | none => s.statuses)[j]? = some (Status.reserved n') := hj
+        cases hpi : p.pieceIndex with
+        | none =>
+          simp only [hpi] at hj
+          have := hinv.resv j n' hj
+          rw [counted_none j p hpi] at hc
+          simp only [b2n, Bool.false_eq_true, if_false, Nat.add_zero] at hc; omega
+        | some y =>
+          simp only [hpi] at hj
+          rw [counted_eq j y p hpi] at hc
+          by_cases hjy : j = y
+          · subst hjy
+            split at hj
+            · simp only [modifyAt_getElem?, if_true] at hj
+              obtain ⟨x, _, hx⟩ := map_some_eq hj
+              simp at hx
+            · rename_i hh
+              simp only [ne_eq, Decidable.not_not] at hh
+              rw [getD_eq, hj] at hh; simp at hh
+          · have : s.statuses[j]? = some (.reserved n') := by
+              split at hj
+              · simpa [modifyAt_getElem?, hjy] using hj
+              · exact hj
+            have := hinv.resv j n' this
+            have hd : decide (j = y) = false := decide_eq_false hjy
+            rw [hd] at hc
+            simp only [Bool.false_and, b2n, Bool.false_eq_true, if_false, Nat.add_zero] at hc; omega
+
+
+/-! ### The property, for every reachable state -/
+
+/-- A history of events each of which a connection task can emit in the state it arrives in; the piece choices
+    carried by the events are arbitrary. -/
+inductive Reach : MState → Prop where
+  | init (n : Nat) : Reach { statuses := List.replicate n .missing, peers := [] }
+  | step (s s' : MState) (ev : Ev) (r : Reply) : Reach s → Enabled s ev → mstep s ev = .ok s' r → Reach s'
+
+theorem inv_init (n : Nat) : Inv { statuses := List.replicate n .missing, peers := [] } := by
+  refine ⟨by simp, by simp, by simp, ?_⟩
+  intro i k h
+  simp only [List.getElem?_replicate] at h
+  split at h <;> simp at h
+
+theorem reach_inv (s : MState) (h : Reach s) : Inv s := by
+  induction h with
+  | init n => exact inv_init n
+  | step s s' ev r _ hen hstep ih =>
+    obtain ⟨s'', r', h1, h2⟩ := step_inv s ih ev hen
+    rw [h1] at hstep; simp only [Out.ok.injEq] at hstep; rw [← hstep.1]; exact h2
+
+/-- **(v)** No sequence of peer events makes the manager panic. -/
+theorem T5_no_panic (s : MState) (h : Reach s) (ev : Ev) (hen : Enabled s ev) : ∀ why, mstep s ev ≠ .panic why := by
+  intro why e
+  obtain ⟨s', r, h1, _⟩ := step_inv s (reach_inv s h) ev hen
+  rw [h1] at e; simp at e
+
+/-- **(ii)** A piece is marked as being fetched only while some connected peer that is not choking us has actually
+    been asked for it (and is recorded with that assignment). -/
+theorem T2_reserved_has_live_witness (s : MState) (h : Reach s) (i n : Nat)
+    (hs : s.statuses[i]? = some (.reserved n)) :
+    n ≥ 1 ∧ ∃ p ∈ s.peers, p.choked = false ∧ p.pieceIndex = some i ∧ p.rx = some i := by
+  have hinv := reach_inv s h
+  obtain ⟨h1, h2⟩ := hinv.resv i n hs
+  refine ⟨h1, ?_⟩
+  have hpos : 0 < countOn s.peers i := by omega
+  obtain ⟨p, hp, hc⟩ := List.countP_pos_iff.mp hpos
+  obtain ⟨hc1, hc2⟩ := (counted_iff i p).mp hc
+  exact ⟨p, hp, hc2, hc1, hinv.idxRx p hp i hc1 hc2⟩
+
+/-- **(iii)** As soon as the last such peer chokes us, is re-assigned, finishes or goes away, the piece is no longer
+    marked as being fetched: in every reachable state without an unchoked peer assigned to `i`, `i` is not Reserved. -/
+theorem T3_released_with_last_peer (s : MState) (h : Reach s) (i : Nat)
+    (hnone : ∀ p ∈ s.peers, ¬ (p.choked = false ∧ p.pieceIndex = some i)) :
+    ∀ n, s.statuses[i]? ≠ some (.reserved n) := by
+  intro n hs
+  obtain ⟨_, p, hp, h1, h2, _⟩ := T2_reserved_has_live_witness s h i n hs
+  exact hnone p hp ⟨h1, h2⟩
+
+/-- **(i)** A piece once owned stays owned. -/
+theorem T1_have_absorbing (s s' : MState) (ev : Ev) (r : Reply) (hstep : mstep s ev = .ok s' r) (i : Nat)
+    (hi : s.statuses[i]? = some .have) : s'.statuses[i]? = some .have := by
+  have hmod : ∀ (st : List Status) (k : Nat) (f : Status → Status), f .have = .have → st[i]? = some .have →
+      (modifyAt st k f)[i]? = some .have := by
+    intro st k f hf hst
+    rw [modifyAt_getElem?]; split <;> simp [hst, hf]
+  have hincr : incr .have = .have := rfl
+  have hdecr : decr .have = .have := rfl
+  have hhp : ∀ (st : List Status) (p : MPeer) (c : Option Nat), st[i]? = some .have →
+      (handlePiece st p c).1[i]? = some .have := by
+    intro st p c hst
+    unfold handlePiece
+    cases c with
+    | none => exact hst
+    | some c => dsimp only; split
+                · exact hst
+                · exact hmod st c incr hincr hst
+  cases ev with
+  | add a n => simp only [mstep, Out.ok.injEq] at hstep; rw [← hstep.1]; exact hi
+  | choke a =>
+    simp only [mstep] at hstep
+    cases hp : findPeer s a with
+    | none => simp [hp] at hstep
+    | some p =>
+      simp only [hp, Out.ok.injEq] at hstep; rw [← hstep.1]
+      cases p.pieceIndex with
+      | none => exact hi
+      | some k => exact hmod _ k decr hdecr hi
+  | unchoke a chosen =>
+    simp only [mstep] at hstep
+    cases hp : findPeer s a with
+    | none => simp [hp] at hstep
+    | some p =>
+      have h0 : (match p.choked, p.pieceIndex with
+          | false, some old => modifyAt s.statuses old decr
+          | _, _ => s.statuses)[i]? = some .have := by
+        cases p.choked <;> cases p.pieceIndex <;> first | exact hi | exact hmod _ _ decr hdecr hi
+      cases chosen with
+      | none => simp only [hp, Out.ok.injEq] at hstep; rw [← hstep.1]; exact h0
+      | some c => simp only [hp, Out.ok.injEq] at hstep; rw [← hstep.1]; exact hmod _ c incr hincr h0
+  | interested a =>
+    simp only [mstep] at hstep
+    cases hp : findPeer s a with
+    | none => simp [hp] at hstep
+    | some p => simp only [hp, Out.ok.injEq] at hstep; rw [← hstep.1]; exact hi
+  | notInterested a chosen =>
+    simp only [mstep] at hstep
+    cases hp : findPeer s a with
+    | none => simp [hp] at hstep
+    | some p => simp only [hp, Out.ok.injEq] at hstep; rw [← hstep.1]; exact hi
+  | bitfield a bits chosen =>
+    simp only [mstep] at hstep
+    cases hp : findPeer s a with
+    | none => simp [hp] at hstep
+    | some p =>
+      simp only [hp] at hstep
+      split at hstep
+      · simp at hstep
+      · simp only [Out.ok.injEq] at hstep; rw [← hstep.1]; exact hi
+  | «have» a k =>
+    simp only [mstep] at hstep
+    cases hp : findPeer s a with
+    | none => simp [hp] at hstep
+    | some p =>
+      simp only [hp] at hstep
+      split at hstep
+      · simp at hstep
+      · split at hstep
+        · rename_i hcond
+          split at hstep
+          · simp only [Out.ok.injEq] at hstep; rw [← hstep.1]
+            -- the piece being reserved was Missing, so it is not the owned piece i
+            have hki : k ≠ i := by
+              intro e; subst e
+              have := hcond.1; rw [getD_eq, hi] at this; simp at this
+            have hik : ¬ i = k := fun e => hki e.symm
+            show (modifyAt s.statuses k (fun _ => Status.reserved 1))[i]? = some Status.have
+            rw [modifyAt_getElem?, if_neg hik]; exact hi
+          · simp only [Out.ok.injEq] at hstep; rw [← hstep.1]; exact hi
+        · simp only [Out.ok.injEq] at hstep; rw [← hstep.1]; exact hi
+  | pieceDone a chosen =>
+    simp only [mstep] at hstep
+    cases hp : findPeer s a with
+    | none => simp [hp] at hstep
+    | some p =>
+      simp only [hp] at hstep
+      cases hpi : p.pieceIndex with
+      | none => simp [hpi] at hstep
+      | some y =>
+        simp only [hpi, Out.ok.injEq] at hstep; rw [← hstep.1]
+        exact hhp _ _ _ (hmod _ y _ rfl hi)
+  | pieceCancel a chosen =>
+    simp only [mstep] at hstep
+    cases hp : findPeer s a with
+    | none => simp [hp] at hstep
+    | some p =>
+      simp only [hp] at hstep
+      cases hpi : p.pieceIndex with
+      | none => simp [hpi] at hstep
+      | some y =>
+        simp only [hpi, Out.ok.injEq] at hstep; rw [← hstep.1]
+        exact hhp _ _ _ (hmod _ y decr hdecr hi)
+  | kill a =>
+    simp only [mstep] at hstep
+    cases hp : findPeer s a with
+    | none => simp only [hp, Out.ok.injEq] at hstep; rw [← hstep.1]; exact hi
+    | some p =>
+      simp only [hp, Out.ok.injEq] at hstep; rw [← hstep.1]
+      cases p.pieceIndex with
+      | none => exact hi
+      | some k =>
+        dsimp only
+        split
+        · rename_i hne
+          have hki : k ≠ i := by
+            intro e; subst e; rw [getD_eq, hi] at hne; simp at hne
+          have hik : ¬ i = k := fun e => hki e.symm
+          rw [modifyAt_getElem?, if_neg hik]; exact hi
+        · exact hi
+
+/-- **(iv)** A peer is only ever asked for a piece it advertised and the client still lacks — given what the
+    chooser guarantees (C13) about its pick; the `Have` branch asks for the very piece just advertised, which is
+    Missing. -/
+theorem T4_asked_only_advertised_and_lacking (s s' : MState) (ev : Ev) (c : Nat) (wi : Bool)
+    (hstep : mstep s ev = .ok s' (.request c wi)) :
+    match ev with
+    | .unchoke _ chosen => chosen = some c
+    | .pieceDone _ chosen => chosen = some c
+    | .pieceCancel _ chosen => chosen = some c
+    | .have a i => i = c ∧ s.statuses.getD c .have = .missing ∧
+        ∃ p', findPeer s' a = some p' ∧ hasPiece p'.pieces c = true
+    | _ => False := by
+  cases ev with
+  | add a n => simp [mstep] at hstep
+  | choke a => simp only [mstep] at hstep; cases hp : findPeer s a <;> simp [hp] at hstep
+  | interested a => simp only [mstep] at hstep; cases hp : findPeer s a <;> simp [hp] at hstep
+  | notInterested a ch =>
+    simp only [mstep] at hstep
+    cases hp : findPeer s a with
+    | none => simp [hp] at hstep
+    | some p => simp only [hp, Out.ok.injEq] at hstep; split at hstep <;> simp at hstep
+  | bitfield a bits ch =>
+    simp only [mstep] at hstep
+    cases hp : findPeer s a with
+    | none => simp [hp] at hstep
+    | some p => simp only [hp] at hstep; split at hstep <;> simp at hstep
+  | kill a => simp only [mstep] at hstep; cases hp : findPeer s a <;> simp [hp] at hstep
+  | unchoke a chosen =>
+    show chosen = some c
+    cases hp : findPeer s a with
+    | none => simp [mstep, hp] at hstep
+    | some p =>
+      cases chosen with
+      | none =>
+        simp only [mstep, hp, Out.ok.injEq] at hstep
+        obtain ⟨_, h2⟩ := hstep
+        cases hai : p.amInterested <;> rw [hai] at h2 <;> exact absurd h2 (by simp)
+      | some c' => simp only [mstep, hp, Out.ok.injEq, Reply.request.injEq] at hstep; simp [hstep.2.1]
+  | pieceDone a chosen =>
+    simp only [mstep] at hstep
+    cases hp : findPeer s a with
+    | none => simp [hp] at hstep
+    | some p =>
+      simp only [hp] at hstep
+      cases hpi : p.pieceIndex with
+      | none => simp [hpi] at hstep
+      | some y =>
+        simp only [hpi, Out.ok.injEq] at hstep
+        have := hstep.2
+        unfold handlePiece at this
+        cases chosen with
+        | none => dsimp only at this; split at this <;> simp at this
+        | some c' => dsimp only at this; split at this
+                     · simp at this
+                     · simp only [Reply.request.injEq] at this; simp [this.1]
+  | pieceCancel a chosen =>
+    simp only [mstep] at hstep
+    cases hp : findPeer s a with
+    | none => simp [hp] at hstep
+    | some p =>
+      simp only [hp] at hstep
+      cases hpi : p.pieceIndex with
+      | none => simp [hpi] at hstep
+      | some y =>
+        simp only [hpi, Out.ok.injEq] at hstep
+        have := hstep.2
+        unfold handlePiece at this
+        cases chosen with
+        | none => dsimp only at this; split at this <;> simp at this
+        | some c' => dsimp only at this; split at this
+                     · simp at this
+                     · simp only [Reply.request.injEq] at this; simp [this.1]
+  | «have» a i =>
+    simp only [mstep] at hstep
+    cases hp : findPeer s a with
+    | none => simp [hp] at hstep
+    | some p =>
+      simp only [hp] at hstep
+      split at hstep
+      · simp at hstep
+      · rename_i hlen
+        split at hstep
+        · rename_i hcond
+          split at hstep
+          · simp only [Out.ok.injEq, Reply.request.injEq] at hstep
+            obtain ⟨hs', hic, _⟩ := hstep
+            subst hic
+            refine ⟨rfl, hcond.1, ?_⟩
+            rw [← hs']
+            refine ⟨_, findPeer_setPeer s _ a p _ hp rfl, ?_⟩
+            simp only [hasPiece, List.getD_eq_getElem?_getD]
+            have : i < p.pieces.length := by omega
+            simp [List.getElem?_set, this]
+          · simp at hstep
+        · simp at hstep
+
+/-! ### Non-vacuity (tests): the L1 history of the finding, on the repaired model -/
+
+def demoInit : MState := { statuses := List.replicate 3 .missing, peers := [] }
+
+def demoS0 : MState :=
+  { statuses := [Status.missing, Status.missing, Status.missing],
+    peers := [({ addr := 1, pieces := [false, false, false] } : MPeer)] }
+
+example : mstep demoInit (.add 1 3) = .ok demoS0 .none := by decide
+
+def demoS1 : MState :=
+  { statuses := [Status.missing, Status.missing, Status.missing], peers := [({ addr := 1, pieces := [true, true, true] } : MPeer)] }
+
+example : ∃ s2 s3, mstep demoS1 (.unchoke 1 (some 0)) = .ok s2 (.request 0 true) ∧
+    mstep s2 (.unchoke 1 (some 2)) = .ok s3 (.request 2 false) ∧
+    s3.statuses = [Status.missing, Status.missing, Status.reserved 1] := by
+  refine ⟨_, _, rfl, rfl, ?_⟩; decide
+
 end Rdest.Props.C12
